@@ -19,3 +19,14 @@ static void *pass(const char *name, void *a, size_t l, int p, int f, int fd, off
 }
 void *mmap(void *a, size_t l, int p, int f, int fd, off_t o) { return pass("mmap", a, l, p, f, fd, o); }
 void *mmap64(void *a, size_t l, int p, int f, int fd, off_t o) { return pass("mmap64", a, l, p, f, fd, o); }
+
+// FAIL_MSYNC: every msync(2) fails with EIO (a mapping whose write-back cannot be scheduled: an I/O error below
+// the page cache, a network filesystem gone away)
+typedef int (*msync_fn)(void *, size_t, int);
+int msync(void *a, size_t l, int f) {
+    if (getenv("FAIL_MSYNC")) {
+        errno = EIO;
+        return -1;
+    }
+    return ((msync_fn)dlsym(RTLD_NEXT, "msync"))(a, l, f);
+}
